@@ -76,6 +76,10 @@ CLAIMED = {
    text="MC_Cond model-checks the dictionary handling (copy vs in-place) against isolation for all construct/evaluate interleavings of 3 conditions; TLC generates histories of constructing and evaluating up to three real conditions that share user dictionaries (static and non-static samplers, periodic left/right data) and the trace monitor checks after every step that each condition received its data functions on ITS OWN points, that the user dictionaries still hold the user's function objects, and that static conditions repeat their loss.",
    note="Trusted: TLC; as C04. Histories of 6 operations over 6 candidate conditions and 2 shared dictionaries (-simulate, 400 quick / 5000 thorough).",
    technique="TLA+ model checking of shared-object interference + TLC-generated histories replayed into the code + stepwise TLC trace validation", ref="5 C14"),
+ "C07": dict(
+   text="Training.tla is the reference optimisation loop in exact rational arithmetic (weighted sum of condition losses, SGD with momentum on every learnable incl. inverse parameters and ascending adaptive point weights, StepLR with step frequency, validation as a stutter on learnable state). TLC model-checks the loop's invariants, enumerates configurations whose reference trajectory fits the 32-bit budget, and the trace monitor steps the log of real Solver + Trainer runs (which condition with which iteration index; every learnable and the learning rate after each batch and around validation) against the reference, bit for bit.",
+   note="Trusted: TLC; float64 affine model and dyadic hyper-parameters so every learnable is an exact rational; Fraction.limit_denominator(2^24) in the driver. Bounded: N = 3 (quick) / 4 steps, <= 3 training conditions, SGD(+momentum)/StepLR only (Adam/LBFGS states are not exactly representable).",
+   technique="TLA+ reference loop in rational arithmetic + stepwise TLC trace validation of real training runs", ref="5 C07"),
 }
 PENDING_REASON = "check not built yet in this round (design in DESIGN.md section 5); not claimed"
 
